@@ -10,6 +10,7 @@
 from __future__ import annotations
 
 import ast
+from engine.util import clone_ast
 import copy
 from typing import Dict, Iterable, List, Optional, Set
 
@@ -71,7 +72,7 @@ def strip_doc(node):
 
 def canon(node: ast.AST, rename: bool = True, keep: Iterable[str] = (), mapping: Optional[Dict[str, str]] = None) -> ast.AST:
     """canonical deep copy of `node`"""
-    n = copy.deepcopy(node)
+    n = clone_ast(node)
     n = strip_doc(n)
     n = _Canon().visit(n)
     ast.fix_missing_locations(n)
